@@ -10,3 +10,4 @@ pub mod sandbox;
 pub mod lexer;
 pub mod canon;
 pub mod frontfault;
+pub mod der;
